@@ -415,6 +415,43 @@ func cmdRun(args []string) int {
 	return code
 }
 
+// runPropertyQuiet runs the quick tier with a mutation applied and returns the exit code and the rules that fired.
+func runPropertyQuiet(prop, mutate, scratch string, start time.Time) (int, []string) {
+	old := os.Stdout
+	r, w, _ := os.Pipe()
+	os.Stdout = w
+	done := make(chan string)
+	go func() {
+		var sb strings.Builder
+		buf := make([]byte, 65536)
+		for {
+			n, err := r.Read(buf)
+			sb.Write(buf[:n])
+			if err != nil {
+				break
+			}
+		}
+		done <- sb.String()
+	}()
+	code := runProperty(prop, "quick", envSeed(), -1, mutate, scratch, start, false)
+	w.Close()
+	os.Stdout = old
+	out := <-done
+	seen := map[string]bool{}
+	var rules []string
+	for _, ln := range strings.Split(out, "\n") {
+		ln = strings.TrimSpace(ln)
+		if v, ok := strings.CutPrefix(ln, "rule="); ok {
+			f := strings.Fields(v)
+			if len(f) > 0 && !seen[f[0]] {
+				seen[f[0]] = true
+				rules = append(rules, f[0])
+			}
+		}
+	}
+	return code, rules
+}
+
 func runProperty(prop, tier string, seed uint64, runs int, mutate, scratch string, start time.Time, writeEvidence bool) int {
 	bin := build(scratch, mutate)
 	meta := getMeta(bin, prop, tier, scratch)
@@ -706,6 +743,8 @@ func main() {
 		os.Exit(cmdReplay(os.Args[2:]))
 	case "selftest":
 		os.Exit(cmdSelftest(os.Args[2:]))
+	case "sensitivity":
+		os.Exit(cmdSensitivity(os.Args[2:]))
 	default:
 		trouble("unknown command %q", os.Args[1])
 	}
